@@ -10,12 +10,12 @@ EXTENDS Num, Integers, Sequences, FiniteSets
 
 VARIABLES phase,    \* "idle" (between blocks) or "open" (inside a block)
           height,   \* height of the last started block
-          now,      \* block time of the last started block (ms, Num)
+          now,      \* block time of the last started block (ns, Num)
           halted    \* TRUE once an automatic phase failed: no further block can be produced
 
 cvars == <<phase, height, now, halted>>
 
-MinGap == N(1)     \* the consensus engine's minimum block-time increment (1 ms)
+MinGap == Pow10(6)  \* the consensus engine's minimum block-time increment: 1 ms, in nanoseconds
 
 ChainInit(h0, t0) == phase = "idle" /\ height = h0 /\ now = t0 /\ halted = FALSE
 
